@@ -50,7 +50,7 @@ theorem eff_invSem (s : St) (e : Ev) (hp : pre s e = none) (h : InvSem s) : InvS
     · exact h sm'
   case sleep t q dl =>
     apply invSem_of_sem _ _ h
-    simp only [effSleep]; cases q <;> (simp only []; split <;> simp [setTh])
+    cases q <;> simp [effSleep, enqueue, setTh]
   case intrNoSleep t st e b => apply invSem_of_sem _ _ h; simp only [effIntrNoSleep]; split <;> simp [setTh]
   case wakeTimeout t => apply invSem_of_sem _ _ h; simp only [effWakeTimeout, dequeue]; split <;> simp [setTh]
   case wakeIntr t e b =>
@@ -58,8 +58,10 @@ theorem eff_invSem (s : St) (e : Ev) (hp : pre s e = none) (h : InvSem s) : InvS
     apply invSem_of_sem _ _ h
     rcases effWakeIntr_form s t e b with hf | hf <;> rw [hf] <;> simp [setTh, hw]
   case mutexTry m ok t => apply invSem_of_sem _ _ h; simp only [effMutexTry]; split <;> rfl
+  case retRwLock t rw w r => apply invSem_of_sem _ _ h; simp only [effRetRwLock]; split; simp [setTh]; split <;> simp [setTh]
+  case callRwUnlock t rw => apply invSem_of_sem _ _ h; simp only [effCallRwUnlock]; split <;> rfl
   all_goals exact invSem_of_sem _ _ h (by first | rfl | simp [effCreate, effDie, effCall, effSetShutdown, effResume,
-      effYield, effRet, effMutexUnlock, effMutexInit, setTh])
+      effYield, effRet, effMutexUnlock, effMutexInit, effRwInit, setTh])
 
 theorem step_invSem (s s' : St) (e : Ev) (h : step s e = .ok s') (hi : InvSem s) : InvSem s' := by
   obtain ⟨s0, _, _, _, _, _, hsem, _, hp, hs'⟩ := step_ok s s' e h
